@@ -353,6 +353,21 @@ type edit struct {
 	topF M // top-level part that completes the violation
 	// placements in which the edit cannot be expressed
 	skip map[string]bool
+	// chain: the violating entry arrives as one entry of a short-syntax list in a middle file, next to a valid sibling that a
+	// later file refines in mapping syntax (nil = the edit has no list-valued attribute)
+	chain *chainSpec
+}
+
+// chainSpec describes a three-step refinement of one list-or-mapping attribute of service "t":
+// file 1 sets `first`, file 2 adds the short list [bad, sib] (or [sib, bad]), file 3 refines `sib` only.
+type chainSpec struct {
+	key    string
+	first  any
+	bad    string
+	sib    string
+	refine any // the value of `key` in the last file (mentions sib only)
+	// extra services the chain needs in the main file
+	services M
 }
 
 func lim(k string, v any) M { return M{"deploy": M{"resources": M{"limits": M{k: v}}}} }
@@ -365,18 +380,18 @@ func c10Edits() []edit {
 	noExt := map[string]bool{"extends": true}
 	return []edit{
 		{rule: "image", base: M{}, frag: M{"command": []any{"x"}}},
-		{rule: "networks", base: img(nil), frag: M{"networks": []any{"ghost"}}},
+		{rule: "networks", base: img(nil), frag: M{"networks": []any{"ghost"}}, chain: &chainSpec{key: "networks", first: []any{"n1"}, bad: "ghost", sib: "n2", refine: M{"n2": M{"aliases": []any{"x"}}}}},
 		{rule: "networks:long", base: img(M{"networks": M{"n1": nil}}), frag: M{"networks": M{"ghost": M{"aliases": []any{"g"}}}}},
 		{rule: "volumes", base: img(nil), frag: M{"volumes": []any{"ghost:/data"}}},
 		{rule: "volumes:long", base: img(M{"volumes": []any{"v1:/ok"}}), frag: M{"volumes": []any{M{"type": "volume", "source": "ghost", "target": "/d"}}}},
-		{rule: "secrets", base: img(nil), frag: M{"secrets": []any{"ghost"}}},
+		{rule: "secrets", base: img(nil), frag: M{"secrets": []any{"ghost"}}, chain: &chainSpec{key: "secrets", first: []any{"sec1"}, bad: "ghost", sib: "sec2", refine: []any{M{"source": "sec2", "target": "renamed"}}}},
 		{rule: "secrets:long", base: img(M{"secrets": []any{"sec1"}}), frag: M{"secrets": []any{M{"source": "ghost", "target": "t"}}}},
-		{rule: "configs", base: img(nil), frag: M{"configs": []any{"ghost"}}},
+		{rule: "configs", base: img(nil), frag: M{"configs": []any{"ghost"}}, chain: &chainSpec{key: "configs", first: []any{"c1"}, bad: "ghost", sib: "c2", refine: []any{M{"source": "c2", "target": "/renamed"}}}},
 		{rule: "buildSecrets", base: M{"build": M{"context": "."}}, frag: M{"build": M{"secrets": []any{"ghost"}}}},
-		{rule: "dependsOn", base: img(nil), frag: M{"depends_on": []any{"ghost"}}},
+		{rule: "dependsOn", base: img(nil), frag: M{"depends_on": []any{"ghost"}}, chain: &chainSpec{key: "depends_on", first: []any{"peer"}, bad: "ghost", sib: "sib", refine: M{"sib": M{"condition": "service_started", "required": false}}, services: M{"peer": M{"image": "p"}, "sib": M{"image": "s"}}}},
 		{rule: "dependsOn:optional-undeclared", base: img(nil), frag: dep("ghost", false)},
 		{rule: "dependsOn:required-disabled", base: img(nil), frag: dep("off", true)},
-		{rule: "dependsOn:short-disabled", base: img(nil), frag: M{"depends_on": []any{"off"}}},
+		{rule: "dependsOn:short-disabled", base: img(nil), frag: M{"depends_on": []any{"off"}}, chain: &chainSpec{key: "depends_on", first: []any{"peer"}, bad: "off", sib: "sib", refine: M{"sib": M{"condition": "service_started", "required": false}}, services: M{"peer": M{"image": "p"}, "sib": M{"image": "s"}}}},
 		{rule: "dependsOn:links", base: img(nil), frag: M{"links": []any{"ghost"}}},
 		{rule: "dependsOn:links-alias", base: img(nil), frag: M{"links": []any{"ghost:db"}}},
 		{rule: "dependsOn:volumes_from", base: img(nil), frag: M{"volumes_from": []any{"ghost:ro"}}},
@@ -408,6 +423,8 @@ func c10Edits() []edit {
 		{rule: "secretSources:none", topB: M{}, topF: M{"secrets": M{"sx": M{"name": "n"}}}, skip: noExt},
 		{rule: "secretSources:none-labels", topB: M{}, topF: M{"secrets": M{"sx": M{"labels": M{"a": "b"}}}}, skip: noExt},
 		{rule: "secretSources:several", topB: M{"secrets": M{"sx": M{"file": "./secret.txt"}}}, topF: M{"secrets": M{"sx": M{"environment": "SECRET_ENV"}}}, skip: noExt},
+		{rule: "secretSources:several-with-driver", topB: M{"secrets": M{"sx": M{"driver": "vault", "file": "./secret.txt"}}}, topF: M{"secrets": M{"sx": M{"environment": "SECRET_ENV"}}}, skip: noExt},
+		{rule: "secretSources:several-external", topB: M{"secrets": M{"sx": M{"external": true, "file": "./secret.txt"}}}, topF: M{"secrets": M{"sx": M{"environment": "SECRET_ENV"}}}, skip: noExt},
 		{rule: "configSources:none", topB: M{}, topF: M{"configs": M{"cx": M{"name": "n"}}}, skip: noExt},
 		{rule: "configSources:file+content", topB: M{"configs": M{"cx": M{"file": "./config.txt"}}}, topF: M{"configs": M{"cx": M{"content": "c"}}}, skip: noExt},
 		{rule: "configSources:environment+content", topB: M{"configs": M{"cx": M{"content": "c"}}}, topF: M{"configs": M{"cx": M{"environment": "CFG_ENV"}}}, skip: noExt},
@@ -415,7 +432,8 @@ func c10Edits() []edit {
 	}
 }
 
-var placements = []string{"main", "override", "extends", "include", "include-split"}
+var placements = []string{"main", "override", "extends", "include", "include-split",
+	"chain-override", "chain-override-rev", "chain-extends", "chain-extends-rev", "chain-include"}
 
 // applyEdit places the edit into a single-file rendering of the valid model m.
 func applyEdit(m validModel, e edit, placement string) (layout, bool) {
@@ -431,6 +449,44 @@ func applyEdit(m validModel, e edit, placement string) (layout, bool) {
 	}
 	svcLevel := e.frag != nil
 	l := layout{files: M{"compose.yaml": main}, configFiles: []string{"compose.yaml"}}
+	if strings.HasPrefix(placement, "chain-") {
+		// the violating entry is one element of a short-syntax list that arrives in a middle step; a later step refines
+		// only its valid sibling (a merge that shares structure between the entries of one list would relax both)
+		c := e.chain
+		if c == nil {
+			return layout{}, false
+		}
+		for n, sv := range c.services {
+			main["services"].(M)[n] = core.DeepCopyVal(sv)
+		}
+		list := []any{c.bad, c.sib}
+		if strings.HasSuffix(placement, "-rev") {
+			list = []any{c.sib, c.bad}
+		}
+		switch strings.TrimSuffix(placement, "-rev") {
+		case "chain-override":
+			main["services"].(M)["t"] = M{"image": "i", c.key: core.DeepCopyVal(c.first)}
+			l.files["override1.yaml"] = M{"services": M{"t": M{c.key: list}}}
+			l.files["override2.yaml"] = M{"services": M{"t": M{c.key: core.DeepCopyVal(c.refine)}}}
+			l.configFiles = append(l.configFiles, "override1.yaml", "override2.yaml")
+		case "chain-extends":
+			l.files["base.yaml"] = M{"services": M{
+				"tmpl0": M{"image": "i", c.key: core.DeepCopyVal(c.first)},
+				"tmpl1": M{"extends": M{"service": "tmpl0"}, c.key: list},
+			}}
+			main["services"].(M)["t"] = M{"extends": M{"file": "base.yaml", "service": "tmpl1"}, c.key: core.DeepCopyVal(c.refine)}
+		case "chain-include":
+			// the first two steps inside an included project (its own override), the refinement in an override of the including one
+			main["include"] = []any{M{"path": []any{"inc.yaml", "inc.override.yaml"}}}
+			l.files["inc.yaml"] = M{"services": M{"t": M{"image": "i", c.key: core.DeepCopyVal(c.first)}}}
+			l.files["inc.override.yaml"] = M{"services": M{"t": M{c.key: list}}}
+			l.files["override2.yaml"] = M{"services": M{"t": M{c.key: core.DeepCopyVal(c.refine)}}}
+			l.configFiles = append(l.configFiles, "override2.yaml")
+		default:
+			return layout{}, false
+		}
+		return l, true
+	}
 	switch placement {
 	case "main":
 		if svcLevel {
